@@ -432,6 +432,9 @@ def trivial_cast(value, type_: Type[AnyXSDType]) -> AnyXSDType:  # workaround. W
         raise TypeError("{} cannot be trivially casted into {}".format(repr(value), type_.__name__))
     if isinstance(value, type_):
         return value
+    if type_ is Boolean:
+        # bool(5) is True: an int is not trivially a boolean
+        raise TypeError("{} cannot be trivially casted into {}".format(repr(value), type_.__name__))
     for baseclass in (int, float, str):
         if isinstance(value, baseclass) and issubclass(type_, baseclass):
             return type_(value)  # type: ignore
